@@ -8,7 +8,7 @@ CONSTANTS
   TF = "t22b"
   PG = "p2b"
   TG = "t22b"
-  LAYOUTS = {"dfs", "hole", "rev"}
+  LAYOUTS = {"dfs", "hole", "rev", "low"}
   EMIT = TRUE
 INVARIANTS LawCompose IndicesKept ResultWellFormed
 ACTION_CONSTRAINT Emit
